@@ -121,6 +121,11 @@ func checkC10(p *Program, r *Result) {
 	checkOptionalDeref(p, r, rfns)
 	checkReadWidths(p, r, rfns)
 	checkLoopProgress(p, r, rfns)
+	checkNoUnguardedRecursion(p, r, scope)
+	r.rule("C10.r", "the source is consumed only through full-read primitives (a hand-written Read loop can spin on (0, EOF))", 15)
+	for _, fn := range rfns {
+		checkRawReadsAs(p, r, fn, "C10.r")
+	}
 }
 
 // checkSlotLength (C10.s): in the index-based loadChunk the record walk and NextInto bound every slice by the
